@@ -46,6 +46,11 @@ def generate(g, tier):
             cases.append(dict(op='compile', timeout=120, src=dict(text=f'VAR s 0\n{kw} {n}\n    IF s%2==0\n        STRING even\n    ELSE\n        STRING odd\n    VAR s s+1'),
                               meta=dict(family='long-loop', expout=['STRING even', 'STRING odd'] * (n // 2) + (['STRING even'] if n % 2 else []))))
         cases.append(dict(op='compile', timeout=120, src=dict(text=f'VAR s 0\nWHILE s<{n}\n    VAR s s+1\n$STRING s'), meta=dict(family='long-loop', expout=[f'STRING {n}'])))
+    # every pass sees what the previous one left — also when a value only changed its TYPE (1 -> TRUE, 0 -> FALSE, 2 -> 2.5 -> "2")
+    for head in ('REPEAT 3', 'FOR 3', 'REPEAT i,3', 'WHILE w,w<3'):
+        for v0, v1, s0, s1 in (('1', 'TRUE', '1', 'True'), ('TRUE', '1', 'True', '1'), ('0', 'FALSE', '0', 'False'), ('FALSE', '0', 'False', '0'), ('2', '"2"', '2', '2'), ('""', 'FALSE', '', 'False')):
+            t = f'VAR armed {v0}\n{head}\n    $STRING "armed="+armed\n    $PRINT armed\n    VAR armed {v1}\n$STRING armed'
+            cases.append(dict(op='compile', src=dict(text=t), meta=dict(family='retyped-in-loop', expout=[f'STRING armed={s0}', f'STRING armed={s1}', f'STRING armed={s1}', f'STRING {s1}'])))
     # every pass of a loop body starts afresh at the body's OWN level: what the previous pass created there is gone, and a chain
     # begun in the previous pass is not continued (a body that opens with ELIF)
     for head, cvar in (('WHILE i,i<3', 'i'), ('REPEAT i,3', 'i'), ('FOR i,3', 'i')):
